@@ -27,6 +27,8 @@ func zzErrName(err InterpreterError) string {
 		return "BadPortionParsingErr"
 	case interpreter.MissingVariableErr:
 		return "MissingVariableErr"
+	case interpreter.InvalidAccountName:
+		return "InvalidAccountName"
 	case interpreter.UnboundFunctionErr:
 		return "UnboundFunctionErr"
 	case interpreter.BadArityErr:
